@@ -501,6 +501,93 @@ Example ml2_token1_exists : nth_error (fst (fst (olf_model ml2_rsA ml2_WA true m
   /\ nth_error (fst (fst (olf_model ml2_rsA kid_W false kid_lines kid_l))) 5 <> None.
 Proof. split; vm_compute; discriminate. Qed.
 
+(* ------------------------------------------------------------------ *)
+(* why "last decision": lines overlap across conditional directives.  The implementation's trace of the seed
+     {$ifdef A} {$else} foo( {$endif} procedure a; begin end {$ifdef A} {$else} ); {$endif}      (second half of seed 144)
+   token 25 (`procedure`) is the first token of the top-level line 6 (RoutineHeader, level 0) and the third token of the top-level
+   line 13 (`foo ( procedure a ; begin end ) ;` of the other branch).  Line 6 decides  WD 25 B 1 0 0  (first token: level 0, no
+   continuation), line 13 decides later  WD 25 B 0 0 1  — the last decision wins and the token ends with one continuation.
+   So H-W1 without the condition on the last decision is false; the unit `levels` reports this seed. *)
+Definition ov_l : list ftoken :=
+  [(mkToken [] [47; 47; 32; 73; 110; 32; 116; 104; 105; 115; 32; 102; 111; 114; 109; 44; 32; 116; 104; 101; 32; 112; 97; 115; 115; 32; 116; 104; 97; 116; 32; 105; 115] (TT_Comment CoK_IndividualLine), mkFmt false 0 0 0 0);
+   (mkToken [] [47; 47; 32; 116; 104; 101; 32; 114; 111; 117; 116; 105; 110; 101; 32; 100; 101; 99; 108; 97; 114; 97; 116; 105; 111; 110; 32; 119; 105; 110; 115; 46] (TT_Comment CoK_IndividualLine), mkFmt false 1 0 0 1);
+   (mkToken [] [123; 36; 73; 70; 68; 69; 70; 32; 65; 125] (TT_ConditionalDirective CDK_Ifdef), mkFmt false 1 0 0 1);
+   (mkToken [] [102; 111; 111] TT_Identifier, mkFmt false 1 0 0 1);
+   (mkToken [] [40] (TT_Op OK_LParen), mkFmt false 0 0 0 0);
+   (mkToken [] [123; 36; 69; 76; 83; 69; 125] (TT_ConditionalDirective CDK_Else), mkFmt false 1 0 0 0);
+   (mkToken [] [123; 36; 69; 78; 68; 73; 70; 125] (TT_ConditionalDirective CDK_Endif), mkFmt false 1 0 0 1);
+   (mkToken [] [112; 114; 111; 99; 101; 100; 117; 114; 101] (TT_Keyword KK_Procedure), mkFmt false 1 0 0 1);
+   (mkToken [] [97] TT_Identifier, mkFmt false 0 0 0 1);
+   (mkToken [] [59] (TT_Op OK_Semicolon), mkFmt false 0 0 0 0);
+   (mkToken [] [98; 101; 103; 105; 110] (TT_Keyword KK_Begin), mkFmt false 1 0 0 1);
+   (mkToken [] [101; 110; 100] (TT_Keyword KK_End), mkFmt false 1 0 0 1);
+   (mkToken [] [123; 36; 73; 70; 68; 69; 70; 32; 65; 125] (TT_ConditionalDirective CDK_Ifdef), mkFmt false 1 0 0 1);
+   (mkToken [] [41] (TT_Op OK_RParen), mkFmt false 1 0 0 0);
+   (mkToken [] [59] (TT_Op OK_Semicolon), mkFmt false 0 0 0 0);
+   (mkToken [] [123; 36; 69; 76; 83; 69; 125] (TT_ConditionalDirective CDK_Else), mkFmt false 1 0 0 1);
+   (mkToken [] [123; 36; 69; 78; 68; 73; 70; 125] (TT_ConditionalDirective CDK_Endif), mkFmt false 1 0 0 1);
+   (mkToken [] [47; 47; 32; 73; 110; 32; 116; 104; 105; 115; 32; 102; 111; 114; 109; 44; 32; 116; 104; 101; 32; 112; 97; 115; 115; 32; 116; 104; 97; 116; 32; 105; 115] (TT_Comment CoK_IndividualLine), mkFmt false 2 0 0 1);
+   (mkToken [] [47; 47; 32; 116; 104; 101; 32; 40; 105; 110; 118; 97; 108; 105; 100; 41; 32; 97; 110; 111; 110; 121; 109; 111; 117; 115; 32; 114; 111; 117; 116; 105; 110; 101] (TT_Comment CoK_IndividualLine), mkFmt false 1 0 0 1);
+   (mkToken [] [47; 47; 32; 100; 101; 99; 108; 97; 114; 97; 116; 105; 111; 110; 32; 119; 105; 110; 115; 46] (TT_Comment CoK_IndividualLine), mkFmt false 1 0 0 1);
+   (mkToken [] [123; 36; 73; 70; 68; 69; 70; 32; 65; 125] (TT_ConditionalDirective CDK_Ifdef), mkFmt false 1 0 0 1);
+   (mkToken [] [123; 36; 69; 76; 83; 69; 125] (TT_ConditionalDirective CDK_Else), mkFmt false 1 0 0 1);
+   (mkToken [] [102; 111; 111] TT_Identifier, mkFmt false 1 0 0 1);
+   (mkToken [] [40] (TT_Op OK_LParen), mkFmt false 0 0 0 0);
+   (mkToken [] [123; 36; 69; 78; 68; 73; 70; 125] (TT_ConditionalDirective CDK_Endif), mkFmt false 1 0 0 0);
+   (mkToken [] [112; 114; 111; 99; 101; 100; 117; 114; 101] (TT_Keyword KK_Procedure), mkFmt false 1 0 0 1);
+   (mkToken [] [97] TT_Identifier, mkFmt false 0 0 0 1);
+   (mkToken [] [59] (TT_Op OK_Semicolon), mkFmt false 0 0 0 0);
+   (mkToken [] [98; 101; 103; 105; 110] (TT_Keyword KK_Begin), mkFmt false 1 0 0 1);
+   (mkToken [] [101; 110; 100] (TT_Keyword KK_End), mkFmt false 0 0 0 1);
+   (mkToken [] [123; 36; 73; 70; 68; 69; 70; 32; 65; 125] (TT_ConditionalDirective CDK_Ifdef), mkFmt false 1 0 0 1);
+   (mkToken [] [123; 36; 69; 76; 83; 69; 125] (TT_ConditionalDirective CDK_Else), mkFmt false 1 0 0 1);
+   (mkToken [] [41] (TT_Op OK_RParen), mkFmt false 1 0 0 0);
+   (mkToken [] [59] (TT_Op OK_Semicolon), mkFmt false 0 0 0 0);
+   (mkToken [] [123; 36; 69; 78; 68; 73; 70; 125] (TT_ConditionalDirective CDK_Endif), mkFmt false 1 0 0 1);
+   (mkToken [] [] TT_Eof, mkFmt false 1 0 0 0)].
+
+Definition ov_lines : list lline :=
+  [mkLine LLT_Unknown 0 None [0]%nat;
+   mkLine LLT_Unknown 0 None [1]%nat;
+   mkLine LLT_Unknown 0 None [3; 4; 7; 8; 9; 10; 11; 13; 14]%nat;
+   mkLine LLT_Unknown 0 None [17]%nat;
+   mkLine LLT_Unknown 0 None [18]%nat;
+   mkLine LLT_Unknown 0 None [19]%nat;
+   mkLine LLT_RoutineHeader 0 None [25; 26; 27]%nat;
+   mkLine LLT_Unknown 0 None [28]%nat;
+   mkLine LLT_Unknown 0 None [29]%nat;
+   mkLine LLT_Eof 0 None [35]%nat;
+   mkLine LLT_RoutineHeader 0 None [7; 8; 9]%nat;
+   mkLine LLT_Unknown 0 None [10]%nat;
+   mkLine LLT_Unknown 0 None [11]%nat;
+   mkLine LLT_Unknown 0 None [22; 23; 25; 26; 27; 28; 29; 32; 33]%nat;
+   mkLine LLT_ConditionalDirective 0 None [2]%nat;
+   mkLine LLT_ConditionalDirective 0 None [5]%nat;
+   mkLine LLT_ConditionalDirective 0 None [6]%nat;
+   mkLine LLT_ConditionalDirective 0 None [12]%nat;
+   mkLine LLT_ConditionalDirective 0 None [15]%nat;
+   mkLine LLT_ConditionalDirective 0 None [16]%nat;
+   mkLine LLT_ConditionalDirective 0 None [20]%nat;
+   mkLine LLT_ConditionalDirective 0 None [21]%nat;
+   mkLine LLT_ConditionalDirective 0 None [24]%nat;
+   mkLine LLT_ConditionalDirective 0 None [30]%nat;
+   mkLine LLT_ConditionalDirective 0 None [31]%nat;
+   mkLine LLT_ConditionalDirective 0 None [34]%nat].
+
+Definition ov_W : wsettings := mkWS 30 20000 false 2 4.
+
+Lemma ov_starts_top_25 : starts_top ov_lines 25 0.
+Proof.
+  intros k ln Hk Hh. do 26 (destruct k as [|k]; [injection Hk as <-; cbn in Hh; try discriminate; repeat split; discriminate|]). destruct k; discriminate.
+Qed.
+
+Example levels_without_last_decision_refuted :
+  starts_top ov_lines 25 0
+  /\ decs_for 25 (olf_plan1 ov_W ov_lines ov_l) = [DBreak true 0 0; DBreak false 0 1]
+  /\ option_map (fun p : ftoken => (f_nl (snd p), f_ind (snd p), f_cont (snd p), f_sp (snd p))) (nth_error (fst (fst (olf_model ml2_rsA ov_W false ov_lines ov_l))) 25)
+     = Some (1, 0, 1, 0).
+Proof. split; [exact ov_starts_top_25|]. split; vm_compute; reflexivity. Qed.
+
 Print Assumptions solve_wsd.
 Print Assumptions olf_phase1_any_line_start.
 Print Assumptions top_line_first_event.
